@@ -19,7 +19,7 @@ package envelope
 //@   ensures [C06] signature: result1 == nil ==> bytes(result0.Signature) == nodeBytes(lookupIdx(node, 0))
 //@   ensures [C06,C10] entries: result1 == nil ==> entriesAre(sigPayload(node), result0, 0, 1) || entriesAre(sigPayload(node), result0, 1, 0)
 //@   use node_sizes, node_map_children
-//@   loop 0: invariant it != nil && mitNode(it) == res.sigPayloadNode && i == mitPos(it) && 0 <= i && i <= 2
+//@   loop 0: invariant it != nil && mitNode(it) == res.sigPayloadNode && i == mitPos(it) && 0 <= i && i <= 2 && mitPos(it) <= mapLen(mitNode(it))
 //@           invariant res.sigPayloadNode == sigPayload(node) && nodeKind(res.sigPayloadNode) == datamodel.Kind_Map && bytes(res.Signature) == nodeBytes(lookupIdx(node, 0))
 //@           invariant forall a int :: 0 <= a && a < i ==> isHdrKey(sigPayload(node), a) || isTagKey(sigPayload(node), a)
 //@           invariant foundVarsigHeader == ((i > 0 && isHdrKey(sigPayload(node), 0)) || (i > 1 && isHdrKey(sigPayload(node), 1)))
